@@ -368,9 +368,11 @@ fn main() {
 	let cells_expected = cell_ids.len() as u64;
 	ctx.floor("matrix cells (position × reference kind) executed", cells_expected, cells_run.len() as u64);
 	ctx.floor("matrix cells: at least 300", 300, cells_expected);
-	let never_renamed: Vec<&String> = tally.judged_positions.keys().filter(|k| !tally.renamed_positions.contains_key(*k)).collect();
+	// the name of a method of an array class (`[Lp/M;.clone`) has no answer other than itself: judged (must stay), never renamed
+	let renameable: Vec<&String> = tally.judged_positions.keys().filter(|k| !k.ends_with("-on-array-class.name")).collect();
+	let never_renamed: Vec<&String> = renameable.iter().filter(|k| !tally.renamed_positions.contains_key(**k)).copied().collect();
 	ctx.floor("judged position keys", 90, tally.judged_positions.len() as u64);
-	ctx.floor("judged position keys at which a remapper's answer differed from the original at least once", tally.judged_positions.len() as u64, tally.renamed_positions.len() as u64);
+	ctx.floor("judged position keys at which a remapper's answer differed from the original at least once", renameable.len() as u64, (renameable.len() - never_renamed.len()) as u64);
 	if !never_renamed.is_empty() {
 		ctx.note(format!("positions never exercised with a renaming answer: {never_renamed:?}"));
 	}
